@@ -2,6 +2,7 @@ package dom
 
 import (
 	"encoding/json"
+	"errors"
 	"sort"
 	"strconv"
 	"strings"
@@ -141,7 +142,8 @@ func (d *storeDom) Gen(r *gen.R, tier string, emit func(string)) {
 	for b := 0; b < blocks; b++ {
 		emit(wire.Line("reset"))
 		model := r.Bool()
-		trans := r.Bool()
+		tkind := r.Pick([]string{"F", "T", "X", "X"})
+		trans := tkind != "F"
 		typ := "coll"
 		if model {
 			typ = "model"
@@ -150,7 +152,7 @@ func (d *storeDom) Gen(r *gen.R, tier string, emit func(string)) {
 		if r.Bool() {
 			pool = storeElems[:3]
 		}
-		cfg := []string{"cfg", typ, map[bool]string{true: "T", false: "F"}[trans]}
+		cfg := []string{"cfg", typ, tkind}
 		if r.Bool() {
 			cfg = append(cfg, "D")
 			if model {
@@ -311,10 +313,28 @@ func (d *storeDom) Exec(a []string) string {
 		case "cfg":
 			d.stop()
 			d.model = a[1] == "model"
-			d.trans = a[2] == "T"
+			d.trans = a[2] == "T" || a[2] == "X"
 			d.st = mockstore.NewStore()
 			h := store.Handler{Store: d.st}
-			if d.trans {
+			if a[2] == "X" {
+				// a transformer that changes the served representation
+				h.Transformer = store.IDTransformer("id", func(id string, v interface{}) (interface{}, error) {
+					switch x := v.(type) {
+					case []json.RawMessage:
+						return append([]json.RawMessage{json.RawMessage(`"T"`)}, x...), nil
+					case map[string]json.RawMessage:
+						m := map[string]json.RawMessage{"_t": json.RawMessage(`1`)}
+						for k, e := range x {
+							if k != "_t" {
+								m[k] = e
+							}
+						}
+						return m, nil
+					}
+					// like a real transformer, it only knows the store's value type
+					return nil, errors.New("transform: unexpected value type")
+				})
+			} else if d.trans {
 				h.Transformer = store.IDTransformer("id", nil)
 			}
 			if a[3] == "D" {
